@@ -471,14 +471,58 @@ TRUSTED_BASE = [
 
 # ---------------------------------------------------------------- generic differential runner
 
+def _summarise_death(rc, err):
+    m = re.search(r"(ERROR: AddressSanitizer: [^\n]*|runtime error: [^\n]*|WARNING: ThreadSanitizer: [^\n]*|Assertion [^\n]*failed[^\n]*)", err)
+    loc = re.search(r"(/repo/src/[^\s:]+:\d+)", err)
+    return "DIED rc=%s %s %s" % (rc, m.group(1)[:200] if m else err.strip()[-200:].replace("\n", " "), loc.group(1) if loc else "")
+
+
+def _run_resilient(cmd, lines, timeout, env=None):
+    """runs cmd over the case lines; when the process dies (sanitizer report, abort, timeout) the case it
+    died on gets a 'DIED ...' result line and the run resumes after it"""
+    out = []
+    rest = list(lines)
+    guard = 0
+    while rest and guard < 200:
+        guard += 1
+        try:
+            p = subprocess.run(cmd, input="\n".join(rest) + "\n", capture_output=True, text=True, timeout=timeout, env=env)
+            rc, so, se = p.returncode, p.stdout, p.stderr
+        except subprocess.TimeoutExpired as e:
+            rc = "timeout"
+            so = e.stdout.decode() if isinstance(e.stdout, bytes) else (e.stdout or "")
+            se = "TIMEOUT after %ss" % timeout
+        got = so.split("\n")
+        if got and got[-1] == "":
+            got = got[:-1]
+        if len(got) >= len(rest):
+            out += got[:len(rest)]
+            rest = []
+        else:
+            # an incomplete last line belongs to the dying case
+            if so and not so.endswith("\n") and got:
+                got = got[:-1]
+            out += got
+            out.append(_summarise_death(rc, se))
+            rest = rest[len(got) + 1:]
+    out += ["DIED too many crashes"] * len(rest)
+    return out
+
+
 def _run_pair(args):
     harness_cmd, driver_cmd, text, timeout = args
-    pi = subprocess.run(harness_cmd, input=text, capture_output=True, text=True, timeout=timeout)
-    impl = pi.stdout.split("\n")
+    lines = text.split("\n")
+    if lines and lines[-1] == "":
+        lines = lines[:-1]
+    impl = _run_resilient(harness_cmd, lines, timeout, env=HARNESS_ENV)
     if driver_cmd is None:
-        return impl, None, pi.returncode, pi.stderr[-2000:]
+        return impl, None, 0, ""
     pm = subprocess.run(driver_cmd, input=text, capture_output=True, text=True, timeout=timeout)
-    return impl, pm.stdout.split("\n"), pi.returncode, pi.stderr[-2000:]
+    return impl, pm.stdout.split("\n"), 0, ""
+
+
+HARNESS_ENV = dict(os.environ, ASAN_OPTIONS="detect_leaks=0:abort_on_error=0:handle_abort=0:handle_segv=1:allocator_may_return_null=1",
+                   UBSAN_OPTIONS="print_stacktrace=0:halt_on_error=1", TSAN_OPTIONS="halt_on_error=1")
 
 
 def run_both(harness_cmd, driver_cmd, lines, timeout=3000, chunk=4000):
